@@ -32,6 +32,7 @@ fn hop<T: Serialize + DeserializeOwned>(x: &T, ty: &str, out: &mut Out, sig: &st
     };
     let s2 = serde_json::to_string(&y).expect("serialise");
     out.count(&format!("c15:hop:{ty}"));
+    out.oracle_only += 1;
     // "the same document": as JSON documents — the library keeps maps in HashMaps, so the order of object members (and of
     // msgpack map entries inside proof-value envelopes) legitimately differs between two serialisations of equal objects
     let same = s1 == s2 || match (serde_json::from_str::<Value>(&s1), serde_json::from_str::<Value>(&s2)) {
@@ -515,6 +516,7 @@ pub fn c07(eng: &mut Engine, rng: &mut Rng, thorough: bool, out: &mut Out) -> Ca
         let Some(pj) = pres_json else { out.count("c07:prover-refused"); continue };
         let texts = decoded_texts(&pj);
         out.count(&format!("c07:scanned:{}", if w3c_form { "w3c" } else { "legacy" }));
+        out.oracle_only += 1;
         let case = json!({"fam":"c07.scan","sig":"","format": if w3c_form {"w3c"} else {"legacy"}, "selection": sel.iter().map(|(r, p, v)| json!([r, p, v])).collect::<Vec<_>>(), "request": serde_json::to_value(&req).unwrap()});
         for (name, raw) in &vals {
             let enc = cred.values.0[name].encoded.clone();
